@@ -9,6 +9,13 @@ R2  spec->code: DescriptiveGen.tla enumerates weighted integer samples (ties, co
     Extreme magnitudes: DescriptiveAff.tla states the expected values on the small sample and, by the
     affine-equivariance theorems of R1, on x' = 2^s x + 2^k c; the harness applies the exact dyadic map
     and compares within the tolerance the specification derives (rounding-error analysis in the module).
+    Extension (DescriptiveExt.tla / DescriptiveExtGen.tla; Multivariate.tla / MultivariateGen.tla): the remaining
+    functions of package stat on the domains where their value is exact - HarmonicMean, GeometricMean (rational
+    roots, scale equivariance), StdErr, StdScore, Entropy / CrossEntropy / KullbackLeibler / JensenShannon /
+    Hellinger / Bhattacharyya on dyadic probability vectors (values in units of ln 2), CircularMean on multiples of
+    pi/2 (values in units of pi), the argument contract of every function (length / order / range requirements),
+    and PC / CC (principal components, canonical correlations) on planted data that the definitions IsPCA / IsCCA
+    accept, as two-analysis histories on one receiver with the destination decision tables.
 R3  code->spec: larger seeded samples (n up to 200) are run through gonum, the integer-valued
     results are logged and TLC recomputes them from the logged sample (DescriptiveTrace.tla).
 """
@@ -62,6 +69,20 @@ def run(ctx):
             ctx.tlc("stat/DescriptiveThm.tla", "stat/DescriptiveThm.cfg", name="R1 theorems: univariate n<=4, second alphabet, w in {0,1,3}",
                     subst=dict(ALPHA=a1, OFF=o1, MAXN=4, BMAXN=2, WVALS="{0,1,3}"), workers=4, timeout=1500)
 
+    # ---- R1 (extension): identities of the means / entropy family / circular mean / contract table on the
+    # definitions of DescriptiveExt.tla; the planted PCA / CCA cases against the definitions of Multivariate.tla
+    # (plant accepted, perturbed claims rejected, integer weights == replicated rows, link to Covariance)
+    wv = "{1,2,3}" if thorough else ["{1,2}", "{1,3}", "{2,3}"][ctx.seed % 3]      # seed-dependent weight alphabet
+    if have("DescriptiveExtGen.tla"):
+        ctx.tlc("stat/DescriptiveExtGen.tla", "stat/DescriptiveExtThm.cfg",
+                name="R1 theorems (means, entropies, circular mean, contract table): n<=3, w in %s" % wv,
+                subst=dict(FAMILY="all", MAXN=3, WVALS=wv, DEN=8 if thorough else 4), workers=4, timeout=1500)
+    if have("MultivariateGen.tla"):
+        nsh = 1 if thorough else 4
+        ctx.tlc("stat/MultivariateGen.tla", "stat/MultivariateThm.cfg",
+                name="R1 theorems (planted PCA / CCA vs the definitions, weights == replication): shard %d/%d" % (ctx.seed % nsh, nsh),
+                subst=dict(FAMILY="all", SHARD=ctx.seed % nsh, NSHARDS=nsh), workers=4, timeout=1500)
+
     # ---- R2: generated cases replayed into gonum --------------------------
     plan = []   # (family, alpha, off, minn, maxn, wvals, pgrid, nshards)
     if not thorough:
@@ -91,6 +112,22 @@ def run(ctx):
             for bn, _ in builds:
                 ctx.replay(bins[bn], "stat", cases, name="R2 replay %s %s-%d n<=%d w=%s%s [%s]" % (
                     fam, a, o, maxn, wvals, (" shard %d" % sh if nsh > 1 else ""), bn))
+
+    # ---- R2 (extension): calls with exact expectations (DescriptiveExtGen.tla) and PC / CC histories
+    if have("DescriptiveExtGen.tla"):
+        for fam in ("hm", "score", "info", "circ", "arg"):
+            big = thorough and fam in ("hm", "circ")
+            sub = dict(FAMILY=fam, MAXN=4 if big else 3, WVALS=wv, DEN=16 if thorough else 8)
+            cases = ctx.gen("stat/DescriptiveExtGen.tla", "stat/DescriptiveExtGen.cfg", subst=sub,
+                            name="R2 gen ext %s n<=%d w=%s den=%d" % (fam, sub["MAXN"], wv, sub["DEN"]))
+            for bn, _ in builds:
+                ctx.replay(bins[bn], "stat", cases, name="R2 replay ext %s [%s]" % (fam, bn))
+    if have("MultivariateGen.tla"):
+        for fam in ("pca", "cca", "marg", "maha"):
+            cases = ctx.gen("stat/MultivariateGen.tla", "stat/MultivariateGen.cfg", subst=dict(FAMILY=fam, SHARD=0, NSHARDS=1),
+                            name="R2 gen %s (planted, checked against the definition)" % fam)
+            for bn, _ in builds:
+                ctx.replay(bins[bn], "stat", cases, name="R2 replay %s [%s]" % (fam, bn))
 
     # ---- R2 (extreme magnitudes): the expected values of the small sample, carried by the affine
     # equivariance theorems to x' = 2^s x + 2^k c (s in {-20,0,20}, k in {0,30,44,52}); the harness
@@ -148,12 +185,24 @@ def run(ctx):
         "min(Sxx, Syy) / var(x) for StdDev / Correlation / slope; uncorrected ones first order in E, checked while E <= 1/4)",
         "where the documentation admits two readings (sample vs population skewness/kurtosis, zero-weight leading "
         "entries at p = 0, ROC threshold on a data value) every reading is accepted",
+        "extension: values stated in units of ln 2 / pi are compared after the harness multiplies the specification's "
+        "rational by the constant math.Ln2 / math.Pi; CircularMean operands are float64(k) * (math.Pi / 2); tolerances "
+        "are the ones the specification prints (2^-33 * magnitude for scalar statistics, 2^-30 * (largest variance + 1) "
+        "for variances, 2^-30 * largest variance / smallest eigenvalue gap for vectors, 2^-30 * data magnitude / "
+        "smallest correlation gap for canonical vectors)",
+        "extension: a doc comment's 'must be equal / must be sorted / should be between 0 and 1' is read as 'panics "
+        "otherwise' (the behaviour of every other function of the package); PC / CC vectors are compared up to the sign "
+        "of each column and only where the eigenvalue / singular value is simple; weighted sample covariance inside "
+        "CanonicalCorrelations is read as stat.CovarianceMatrix defines it (normalised by sum(w) - 1)",
     ]
     return ctx.finish(
         rule="R2: one case = one weighted integer sample (or pair of samples / sample + dividers) with all statistics "
              "of its family evaluated by gonum and compared with the specification's values; non-trivial = the sample "
              "has at least two distinct values (uni/ord/bi), the KS distance is non-zero, the histogram input has "
-             "more than one point or must panic. R3: one trace = one recorded sample with all logged results.",
+             "more than one point or must panic. Extension: one case = one sample / pair of probability vectors / contract "
+             "row with its calls (non-trivial as flagged by the specification: at least two distinct values, p # q, a "
+             "defined mean direction, every contract row), or one two-analysis history of a PC / CC receiver "
+             "(non-trivial = at least one vector determined up to sign was compared). R3: one trace = one recorded sample with all logged results.",
         exhaustive=True)
 
 
